@@ -158,6 +158,16 @@ theorem any_nonascii_true {s : Str} (h : ¬ ∀ c ∈ s, c.toNat < 128) : s.any 
   obtain ⟨c, hc, hn⟩ := h
   exact ⟨c, hc, by simp only [decide_eq_true_eq]; omega⟩
 
+theorem tag_length (ty : String) (c d : Bool) : (tag ty c d).length = 3 := rfl
+
+/-- the hash depends on the rotation function only through its values (the general bridge between the
+Booth-loop model and the arg-min model; instantiated by `Props.C12Booth.hash_eq_hashSpec`) -/
+theorem hashWith_congr {rot rot' : Str → Option Str} (h : ∀ s, rot s = rot' s)
+    (blake : List UInt8 → List UInt8) (s : Str) (ty : String) (c d : Bool) :
+    hashWith rot blake s ty c d = hashWith rot' blake s ty c d := by
+  have : rot = rot' := funext h
+  rw [this]
+
 /-- rejection happens before the rotation is looked at: it holds for EVERY rotation function -/
 theorem hashWith_err (rot : Str → Option Str) (blake : List UInt8 → List UInt8) (s : Str) (ty : String)
     (circ ds : Bool) (h : ¬ Accepted ty ds (norm ty s)) : hashWith rot blake s ty circ ds = .err := by
